@@ -249,8 +249,14 @@ class ShelfCreator:
     @staticmethod
     def _content_from_tree(tt, tree, file_id):
         trans_id = tt.trans_id_file_id(file_id)
+        was_file = tt.tree_kind(trans_id) == "file"
         tt.delete_contents(trans_id)
-        transform.create_from_tree(tt, trans_id, tree, tree.id2path(file_id))
+        path = tree.id2path(file_id)
+        transform.create_from_tree(tt, trans_id, tree, path)
+        if not was_file and tree.kind(path) == "file":
+            # a file that replaces a directory or symlink has no mode to
+            # inherit: carry the executable bit explicitly
+            tt.set_executability(tree.is_executable(path), trans_id)
 
     def shelve_content_change(self, file_id):
         """Shelve a kind change or binary file content change.
@@ -331,9 +337,12 @@ class ShelfCreator:
                 if kind is None:
                     to_transform.create_file([b""], s_trans_id)
                 else:
-                    transform.create_from_tree(
-                        to_transform, s_trans_id, tree, tree.id2path(file_id)
-                    )
+                    path = tree.id2path(file_id)
+                    transform.create_from_tree(to_transform, s_trans_id, tree, path)
+                    if kind == "file":
+                        to_transform.set_executability(
+                            tree.is_executable(path), s_trans_id
+                        )
         if version:
             to_transform.version_file(s_trans_id, file_id=file_id)
 
